@@ -82,7 +82,7 @@ Proof. rewrite !dcmp_kcmp. apply (ok_anti _ kcmp_ok). Qed.
 
 Lemma dle_trans a b c : dle a b -> dle b c -> dle a c.
 Proof.
-  unfold dle. rewrite !dcmp_kcmp. intros H1 H2.
+  unfold dle, dle_c. rewrite !dcmp_kcmp. intros H1 H2.
   destruct (kcmp (sort_key a) (sort_key b)) eqn:E1; [| |congruence].
   - apply (ok_eq _ kcmp_ok) in E1. now rewrite E1.
   - destruct (kcmp (sort_key b) (sort_key c)) eqn:E2; [| |congruence].
@@ -90,77 +90,16 @@ Proof.
     + rewrite (ok_lt _ kcmp_ok _ _ _ E1 E2). discriminate.
 Qed.
 
-Lemma dle_antisym a b : dle a b -> dle b a -> dcmp a b = Eq.
+(* the same two facts for any comparison that is a lexicographic order on some key *)
+Lemma ordok_le_trans {K} (c : K -> K -> comparison) (key : cdiag -> K) :
+  OrdOK c -> forall x y z, c (key x) (key y) <> Gt -> c (key y) (key z) <> Gt -> c (key x) (key z) <> Gt.
 Proof.
-  unfold dle. rewrite (dcmp_anti a b). destruct (dcmp a b); cbn [CompOpp]; congruence.
-Qed.
-
-Lemma gt_dle a b : dcmp a b = Gt -> dle b a.
-Proof. unfold dle. rewrite (dcmp_anti a b). intros ->. discriminate. Qed.
-
-(* ---------- a sorted permutation is unique when the keys identify the elements ---------- *)
-Lemma keys_injective_incl l l' : (forall x, In x l' -> In x l) -> keys_injective l -> keys_injective l'.
-Proof. intros I K a b Ha Hb. apply K; auto. Qed.
-
-Lemma sorted_perm_unique l1 : forall l2,
-  StronglySorted dle l1 -> StronglySorted dle l2 -> Permutation l1 l2 -> keys_injective l1 -> l1 = l2.
-Proof.
-  induction l1 as [|a r1 IH]; intros l2 S1 S2 P K.
-  - apply Permutation_nil in P. now subst.
-  - destruct l2 as [|b r2]; [apply Permutation_sym, Permutation_nil in P; discriminate|].
-    apply StronglySorted_inv in S1, S2. destruct S1 as [S1 F1], S2 as [S2 F2].
-    rewrite Forall_forall in F1, F2.
-    assert (Ib : In b (a :: r1)) by (eapply Permutation_in; [apply Permutation_sym; exact P | now left]).
-    assert (Ia : In a (b :: r2)) by (eapply Permutation_in; [exact P | now left]).
-    assert (E : a = b).
-    { destruct Ib as [Ib|Ib]; auto. destruct Ia as [Ia|Ia]; auto.
-      apply K; [now left | now right |]. apply dle_antisym; auto. }
-    subst b. f_equal. apply IH; auto.
-    + eapply Permutation_cons_inv; eauto.
-    + eapply keys_injective_incl; [|exact K]. intros x Hx. now right.
-Qed.
-
-(* ---------- insertion sort is a sort, and leaves sorted lists alone ---------- *)
-Lemma insert_perm x s : Permutation (x :: s) (insert x s).
-Proof.
-  induction s as [|y r IH]; cbn [insert]; auto.
-  destruct (dcmp x y); auto. eapply perm_trans; [apply perm_swap|]. now apply perm_skip.
-Qed.
-
-Lemma isort_perm l : Permutation l (isort l).
-Proof.
-  induction l as [|x r IH]; cbn [isort fold_right]; auto.
-  eapply perm_trans; [apply perm_skip; exact IH|]. apply insert_perm.
-Qed.
-
-Lemma insert_sorted x s : StronglySorted dle s -> StronglySorted dle (insert x s).
-Proof.
-  induction s as [|y r IH]; intros S; cbn [insert].
-  - repeat constructor.
-  - apply StronglySorted_inv in S. destruct S as [S F].
-    destruct (dcmp x y) eqn:E.
-    + constructor; [constructor; auto|]. constructor; [unfold dle; congruence|].
-      rewrite Forall_forall in *. intros z Hz. eapply dle_trans; [|apply F; exact Hz]. unfold dle. congruence.
-    + constructor; [constructor; auto|]. constructor; [unfold dle; congruence|].
-      rewrite Forall_forall in *. intros z Hz. eapply dle_trans; [|apply F; exact Hz]. unfold dle. congruence.
-    + constructor; [now apply IH|].
-      eapply Permutation_Forall; [apply insert_perm|]. constructor; auto. now apply gt_dle.
-Qed.
-
-Lemma isort_sorted l : StronglySorted dle (isort l).
-Proof.
-  induction l as [|x r IH]; cbn [isort fold_right]; [constructor|]. now apply insert_sorted.
-Qed.
-
-Lemma isort_is_sort l : is_sort l (isort l).
-Proof. split; [apply isort_perm | apply isort_sorted]. Qed.
-
-Lemma isort_id s : StronglySorted dle s -> isort s = s.
-Proof.
-  induction s as [|a r IH]; intros S; auto. apply StronglySorted_inv in S. destruct S as [S F].
-  cbn [isort fold_right]. fold (isort r). rewrite IH by auto.
-  destruct r as [|y r']; auto. cbn [insert]. inversion F as [|? ? D _]; subst.
-  unfold dle in D. destruct (dcmp a y); congruence.
+  intros OK x y z H1 H2.
+  destruct (c (key x) (key y)) eqn:E1; [| |congruence].
+  - apply (ok_eq _ OK) in E1. now rewrite E1.
+  - destruct (c (key y) (key z)) eqn:E2; [| |congruence].
+    + apply (ok_eq _ OK) in E2. rewrite <- E2, E1. discriminate.
+    + rewrite (ok_lt _ OK _ _ _ E1 E2). discriminate.
 Qed.
 
 (* ---------- the marking pass, characterised by a look-ahead ---------- *)
@@ -269,25 +208,108 @@ Qed.
 Lemma no_sentinel_perm l s : Permutation l s -> no_sentinel l -> no_sentinel s.
 Proof. intros P NS d Hd. apply NS. eapply Permutation_in; [apply Permutation_sym; exact P | exact Hd]. Qed.
 
+(* ====================================================================================
+   Everything below the marking pass is proved for an arbitrary comparison that is antisymmetric
+   and whose "not greater" is transitive; it is instantiated for the six keys of the code as it is
+   (dcmp) and for the repaired comparison (dcmp2).
+   ==================================================================================== *)
+Section Gen.
+Variable cmp : cdiag -> cdiag -> comparison.
+Hypothesis cmp_anti : forall a b, cmp b a = CompOpp (cmp a b).
+Hypothesis cmp_le_trans : forall a b c, dle_c cmp a b -> dle_c cmp b c -> dle_c cmp a c.
+
+Local Notation gle := (dle_c cmp).
+
+Lemma gle_antisym a b : gle a b -> gle b a -> cmp a b = Eq.
+Proof. unfold dle_c. rewrite (cmp_anti a b). destruct (cmp a b); cbn [CompOpp]; congruence. Qed.
+
+Lemma gt_gle a b : cmp a b = Gt -> gle b a.
+Proof. unfold dle_c. rewrite (cmp_anti a b). intros ->. discriminate. Qed.
+
+(* ---------- a sorted permutation is unique when the keys identify the elements ---------- *)
+Lemma keys_injective_incl l l' : (forall x, In x l' -> In x l) -> keys_injective_c cmp l -> keys_injective_c cmp l'.
+Proof. intros I K a b Ha Hb. apply K; auto. Qed.
+
+Lemma sorted_perm_unique l1 : forall l2,
+  StronglySorted gle l1 -> StronglySorted gle l2 -> Permutation l1 l2 -> keys_injective_c cmp l1 -> l1 = l2.
+Proof.
+  induction l1 as [|a r1 IH]; intros l2 S1 S2 P K.
+  - apply Permutation_nil in P. now subst.
+  - destruct l2 as [|b r2]; [apply Permutation_sym, Permutation_nil in P; discriminate|].
+    apply StronglySorted_inv in S1, S2. destruct S1 as [S1 F1], S2 as [S2 F2].
+    rewrite Forall_forall in F1, F2.
+    assert (Ib : In b (a :: r1)) by (eapply Permutation_in; [apply Permutation_sym; exact P | now left]).
+    assert (Ia : In a (b :: r2)) by (eapply Permutation_in; [exact P | now left]).
+    assert (E : a = b).
+    { destruct Ib as [Ib|Ib]; auto. destruct Ia as [Ia|Ia]; auto.
+      apply K; [now left | now right |]. apply gle_antisym; auto. }
+    subst b. f_equal. apply IH; auto.
+    + eapply Permutation_cons_inv; eauto.
+    + eapply keys_injective_incl; [|exact K]. intros x Hx. now right.
+Qed.
+
+(* ---------- insertion sort is a sort, and leaves sorted lists alone ---------- *)
+Lemma insert_perm x s : Permutation (x :: s) (insert_c cmp x s).
+Proof.
+  induction s as [|y r IH]; cbn [insert_c]; auto.
+  destruct (cmp x y); auto. eapply perm_trans; [apply perm_swap|]. now apply perm_skip.
+Qed.
+
+Lemma isort_perm l : Permutation l (isort_c cmp l).
+Proof.
+  induction l as [|x r IH]; cbn [isort_c fold_right]; auto.
+  eapply perm_trans; [apply perm_skip; exact IH|]. apply insert_perm.
+Qed.
+
+Lemma insert_sorted x s : StronglySorted gle s -> StronglySorted gle (insert_c cmp x s).
+Proof.
+  induction s as [|y r IH]; intros S; cbn [insert_c].
+  - repeat constructor.
+  - apply StronglySorted_inv in S. destruct S as [S F].
+    destruct (cmp x y) eqn:E.
+    + constructor; [constructor; auto|]. constructor; [unfold dle_c; congruence|].
+      rewrite Forall_forall in *. intros z Hz. eapply cmp_le_trans; [|apply F; exact Hz]. unfold dle_c. congruence.
+    + constructor; [constructor; auto|]. constructor; [unfold dle_c; congruence|].
+      rewrite Forall_forall in *. intros z Hz. eapply cmp_le_trans; [|apply F; exact Hz]. unfold dle_c. congruence.
+    + constructor; [now apply IH|].
+      eapply Permutation_Forall; [apply insert_perm|]. constructor; auto. now apply gt_gle.
+Qed.
+
+Lemma isort_sorted l : StronglySorted gle (isort_c cmp l).
+Proof.
+  induction l as [|x r IH]; cbn [isort_c fold_right]; [constructor|]. now apply insert_sorted.
+Qed.
+
+Lemma isort_is_sort l : is_sort_c cmp l (isort_c cmp l).
+Proof. split; [apply isort_perm | apply isort_sorted]. Qed.
+
+Lemma isort_id s : StronglySorted gle s -> isort_c cmp s = s.
+Proof.
+  induction s as [|a r IH]; intros S; auto. apply StronglySorted_inv in S. destruct S as [S F].
+  cbn [isort_c fold_right]. fold (isort_c cmp r). rewrite IH by auto.
+  destruct r as [|y r']; auto. cbn [insert_c]. inversion F as [|? ? D _]; subst.
+  unfold dle_c in D. destruct (cmp a y); congruence.
+Qed.
+
 (* what Canonicalize leaves behind is sorted, and a sub-multiset of the input *)
-Lemma canon_rel_sorted keep l o : canon_rel keep l o -> StronglySorted dle o.
+Lemma canon_rel_sorted keep l o : canon_rel_c cmp keep l o -> StronglySorted gle o.
 Proof.
   intros (s & [P S] & ->). destruct keep; auto. rewrite dedup_eq. now apply dedup_spec_sorted.
 Qed.
 
-Lemma canon_rel_incl keep l o x : canon_rel keep l o -> In x o -> In x l.
+Lemma canon_rel_incl keep l o x : canon_rel_c cmp keep l o -> In x o -> In x l.
 Proof.
   intros (s & [P S] & ->) H. eapply Permutation_in; [apply Permutation_sym; exact P|].
   destruct keep; auto. rewrite dedup_eq in H. now apply dedup_spec_incl in H.
 Qed.
 
 (* ---------- the theorems ---------- *)
-Theorem canon_rel_total_lemma : forall keep l, canon_rel keep l (canonicalize keep l).
-Proof. intros keep l. exists (isort l). split; [apply isort_is_sort|]. reflexivity. Qed.
+Theorem canon_rel_total_c : forall keep l, canon_rel_c cmp keep l (canonicalize_c cmp keep l).
+Proof. intros keep l. exists (isort_c cmp l). split; [apply isort_is_sort|]. reflexivity. Qed.
 
 (* canonicalising twice changes nothing: the result of one pass is a fixed point of the next ... *)
-Theorem canon_idempotent_lemma : forall keep l o,
-  no_sentinel l -> canon_rel keep l o -> canon_rel keep o o.
+Theorem canon_idempotent_c : forall keep l o,
+  no_sentinel l -> canon_rel_c cmp keep l o -> canon_rel_c cmp keep o o.
 Proof.
   intros keep l o NS H. pose proof (canon_rel_sorted _ _ _ H) as SO.
   destruct H as (s & [P S] & E). exists o. split; [split; auto|].
@@ -296,13 +318,13 @@ Proof.
 Qed.
 
 (* ... and, when the keys identify the diagnostics, it is the only possible result of the next pass *)
-Theorem canon_idempotent_unique_lemma : forall keep l o o',
-  no_sentinel l -> keys_injective l -> canon_rel keep l o -> canon_rel keep o o' -> o' = o.
+Theorem canon_idempotent_unique_c : forall keep l o o',
+  no_sentinel l -> keys_injective_c cmp l -> canon_rel_c cmp keep l o -> canon_rel_c cmp keep o o' -> o' = o.
 Proof.
   intros keep l o o' NS K H H'.
-  pose proof (canon_idempotent_lemma _ _ _ NS H) as (s1 & [P1 S1] & E1).
+  pose proof (canon_idempotent_c _ _ _ NS H) as (s1 & [P1 S1] & E1).
   destruct H' as (s2 & [P2 S2] & E2).
-  assert (KO : keys_injective o).
+  assert (KO : keys_injective_c cmp o).
   { eapply keys_injective_incl; [|exact K]. intros x Hx. eapply canon_rel_incl; eauto. }
   pose proof (canon_rel_sorted _ _ _ H) as SO.
   assert (s1 = o) by (symmetry; apply sorted_perm_unique; auto).
@@ -311,10 +333,10 @@ Proof.
 Qed.
 
 (* the stable instance is idempotent whatever the keys are *)
-Theorem canonicalize_idempotent_lemma : forall keep l,
-  no_sentinel l -> canonicalize keep (canonicalize keep l) = canonicalize keep l.
+Theorem canonicalize_idempotent_c : forall keep l,
+  no_sentinel l -> canonicalize_c cmp keep (canonicalize_c cmp keep l) = canonicalize_c cmp keep l.
 Proof.
-  intros keep l NS. unfold canonicalize. destruct keep.
+  intros keep l NS. unfold canonicalize_c. destruct keep.
   - apply isort_id, isort_sorted.
   - rewrite isort_id.
     + rewrite !dedup_eq. apply dedup_spec_idem. eapply no_sentinel_perm; [apply isort_perm|auto].
@@ -322,8 +344,8 @@ Proof.
 Qed.
 
 (* the result does not depend on the order of the input -- given that the keys identify the diagnostics *)
-Theorem canon_perm_invariant_lemma : forall keep l l' o o',
-  Permutation l l' -> keys_injective l -> canon_rel keep l o -> canon_rel keep l' o' -> o = o'.
+Theorem canon_perm_invariant_c : forall keep l l' o o',
+  Permutation l l' -> keys_injective_c cmp l -> canon_rel_c cmp keep l o -> canon_rel_c cmp keep l' o' -> o = o'.
 Proof.
   intros keep l l' o o' P K (s & [P1 S1] & ->) (s' & [P2 S2] & ->).
   assert (s = s').
@@ -332,6 +354,104 @@ Proof.
     - eapply keys_injective_incl; [|exact K]. intros x Hx. eapply Permutation_in; [apply Permutation_sym; exact P1|auto]. }
   now subst.
 Qed.
+
+(* incremental.Run: the visiting order of the tasks does not matter *)
+Lemma concat_perm {A} (v v' : list (list A)) : Permutation v v' -> Permutation (concat v) (concat v').
+Proof.
+  induction 1; cbn [concat]; auto.
+  - now apply Permutation_app_head.
+  - rewrite !app_assoc. apply Permutation_app_tail, Permutation_app_comm.
+  - eapply perm_trans; eauto.
+Qed.
+
+Theorem run_report_order_independent_c : forall keep v v' o o',
+  Permutation v v' -> keys_injective_c cmp (concat v) ->
+  run_report_c cmp keep v o -> run_report_c cmp keep v' o' -> o = o'.
+Proof.
+  intros keep v v' o o' P K H H'. unfold run_report_c in *.
+  eapply (canon_perm_invariant_c keep (concat v) (concat v')); eauto. now apply concat_perm.
+Qed.
+End Gen.
+
+(* ---------- instance: the code as it is (six keys) ---------- *)
+Definition canon_rel_total_lemma : forall keep l, canon_rel keep l (canonicalize keep l) :=
+  canon_rel_total_c dcmp dcmp_anti dle_trans.
+Definition canon_idempotent_lemma : forall keep l o, no_sentinel l -> canon_rel keep l o -> canon_rel keep o o :=
+  canon_idempotent_c dcmp.
+Definition canon_idempotent_unique_lemma : forall keep l o o',
+  no_sentinel l -> keys_injective l -> canon_rel keep l o -> canon_rel keep o o' -> o' = o :=
+  canon_idempotent_unique_c dcmp dcmp_anti.
+Definition canonicalize_idempotent_lemma : forall keep l,
+  no_sentinel l -> canonicalize keep (canonicalize keep l) = canonicalize keep l :=
+  canonicalize_idempotent_c dcmp dcmp_anti dle_trans.
+Definition canon_perm_invariant_lemma : forall keep l l' o o',
+  Permutation l l' -> keys_injective l -> canon_rel keep l o -> canon_rel keep l' o' -> o = o' :=
+  canon_perm_invariant_c dcmp dcmp_anti.
+Definition run_report_order_independent_lemma : forall keep v v' o o',
+  Permutation v v' -> keys_injective (concat v) -> run_report keep v o -> run_report keep v' o' -> o = o' :=
+  run_report_order_independent_c dcmp dcmp_anti.
+
+(* ---------- instance: the repaired comparison (six keys, then level, then the rest) ---------- *)
+Lemma N_cmp_ok : OrdOK N.compare.
+Proof.
+  constructor.
+  - intros a b. apply N.compare_eq_iff.
+  - intros a b. apply N.compare_antisym.
+  - intros a b d. rewrite !N.compare_lt_iff. lia.
+Qed.
+
+Definition skey2 : Type := (skey * (Z * N))%type.
+Definition sort_key2 (d : cdiag) : skey2 := (sort_key d, (c_level d, c_rest d)).
+Definition kcmp2 : skey2 -> skey2 -> comparison := lexp kcmp (lexp Z.compare N.compare).
+
+Lemma kcmp2_ok : OrdOK kcmp2.
+Proof. unfold kcmp2. repeat apply lexp_ok; auto using kcmp_ok, Z_cmp_ok, N_cmp_ok. Qed.
+
+Lemma dcmp2_kcmp2 a b : dcmp2 a b = kcmp2 (sort_key2 a) (sort_key2 b).
+Proof. reflexivity. Qed.
+
+Lemma dcmp2_anti a b : dcmp2 b a = CompOpp (dcmp2 a b).
+Proof. rewrite !dcmp2_kcmp2. apply (ok_anti _ kcmp2_ok). Qed.
+
+Lemma dle2_trans a b c : dle_c dcmp2 a b -> dle_c dcmp2 b c -> dle_c dcmp2 a c.
+Proof. unfold dle_c. rewrite !dcmp2_kcmp2. apply (ordok_le_trans kcmp2 sort_key2 kcmp2_ok). Qed.
+
+(* with the two extra keys, comparing equal means being equal -- up to which File object a path refers to *)
+Lemma dcmp2_injective l : one_file_per_path l -> keys_injective_c dcmp2 l.
+Proof.
+  intros OF a b Ha Hb E. rewrite dcmp2_kcmp2 in E. apply (ok_eq _ kcmp2_ok) in E.
+  unfold sort_key2, sort_key in E. injection E as E1 E2 E3 E4 E5 E6 E7 E8.
+  specialize (OF a b Ha Hb E1).
+  destruct a as [[fa sa ea] so ta ma la ra], b as [[fb sb eb] sob tb mb lb rb]. cbn in *. congruence.
+Qed.
+
+Theorem canon_perm_invariant_repaired_lemma : forall keep l l' o o',
+  Permutation l l' -> one_file_per_path l ->
+  canon_rel_c dcmp2 keep l o -> canon_rel_c dcmp2 keep l' o' -> o = o'.
+Proof.
+  intros keep l l' o o' P OF. apply (canon_perm_invariant_c dcmp2 dcmp2_anti); auto.
+  now apply dcmp2_injective.
+Qed.
+
+Theorem canon_idempotent_repaired_lemma : forall keep l o o',
+  no_sentinel l -> one_file_per_path l ->
+  canon_rel_c dcmp2 keep l o -> canon_rel_c dcmp2 keep o o' -> o' = o.
+Proof.
+  intros keep l o o' NS OF. apply (canon_idempotent_unique_c dcmp2 dcmp2_anti); auto.
+  now apply dcmp2_injective.
+Qed.
+
+Theorem run_report_order_independent_repaired_lemma : forall keep v v' o o',
+  Permutation v v' -> one_file_per_path (concat v) ->
+  run_report_c dcmp2 keep v o -> run_report_c dcmp2 keep v' o' -> o = o'.
+Proof.
+  intros keep v v' o o' P OF. apply (run_report_order_independent_c dcmp2 dcmp2_anti); auto.
+  now apply dcmp2_injective.
+Qed.
+
+(* the witness of the missing tie-break is ordered by the repaired comparison *)
+Lemma tie_repaired : dcmp2 (mkcd zero_span 0 [] [109%N] 2 1) (mkcd zero_span 0 [] [109%N] 3 2) = Lt.
+Proof. reflexivity. Qed.
 
 (* without that hypothesis the statement is false, already for the sort alone: two diagnostics that agree
    on all six keys and differ elsewhere (here: level and the rest) may come out in either order *)
@@ -377,23 +497,6 @@ Proof.
       - intros a b [<-|[<-|[]]] [<-|[<-|[]]]; vm_compute; intros; try reflexivity; discriminate. }
     subst s. reflexivity.
   - vm_compute. discriminate.
-Qed.
-
-(* ---------- incremental.Run: the visiting order of the tasks does not matter ---------- *)
-Lemma concat_perm {A} (v v' : list (list A)) : Permutation v v' -> Permutation (concat v) (concat v').
-Proof.
-  induction 1; cbn [concat]; auto.
-  - now apply Permutation_app_head.
-  - rewrite !app_assoc. apply Permutation_app_tail, Permutation_app_comm.
-  - eapply perm_trans; eauto.
-Qed.
-
-Theorem run_report_order_independent_lemma : forall keep v v' o o',
-  Permutation v v' -> keys_injective (concat v) ->
-  run_report keep v o -> run_report keep v' o' -> o = o'.
-Proof.
-  intros keep v v' o o' P K H H'. unfold run_report in *.
-  eapply (canon_perm_invariant_lemma keep (concat v) (concat v')); eauto. now apply concat_perm.
 Qed.
 
 (* non-vacuity: a list with a duplicate pair, in two orders *)
